@@ -92,7 +92,7 @@ def run_script(ctx, rp, script, tag, stop_locks, max_paths):
     return graph_replay(ctx, "Scheduler", "SchedulerThread", "SchedulerThread_base.cfg", tag, rp, lambda st: proj(st, script),
                         header_fn=lambda k, st0: hdr, defs={"Script": tla_script(script)},
                         constants={"MaxSleeps": "3", "StopLocks": "TRUE" if stop_locks else "FALSE"},
-                        must_take=ACTIONS, max_paths=max_paths, tlc_kw={"workers": 4})
+                        must_take=ACTIONS, max_paths=max_paths, tlc_kw={"workers": 4}, replay_timeout=240)
 
 
 def thread_mode(ctx, stop_locks=True):
